@@ -126,7 +126,11 @@ func (s *Server) livesimHandlerFunc(w http.ResponseWriter, r *http.Request) {
 		err := writeLiveMPD(log, w, cfg, s.Cfg.DrmCfg, a, mpdName, nowMS)
 		if err != nil {
 			log.Error("liveMPD", "err", err)
-			http.Error(w, err.Error(), http.StatusInternalServerError)
+			code := http.StatusInternalServerError
+			if errors.Is(err, errBadConfig) || errors.Is(err, ErrAtoInfTimeline) {
+				code = http.StatusBadRequest // The URL parameters do not fit the asset or each other
+			}
+			http.Error(w, err.Error(), code)
 			return
 		}
 	case ".mp4", ".m4s", ".cmfv", ".cmfa", ".cmft", ".jpg", ".jpeg", ".m4v", ".m4a":
